@@ -82,6 +82,13 @@ Theorem C14_doc_string_lists_mirror : forall (x y : list str) (l : loc) (ca cd :
 Proof. exact list_pair_mirror. Qed.
 Print Assumptions C14_doc_string_lists_mirror.
 
+(* the whole metadata section (consumes, produces, schemes, description, host, base path) of two documents that both
+   declare the three lists *)
+Theorem C14_doc_metadata_mirror : forall a b, lists_present a -> lists_present b ->
+  Permutation (map lc_mirror (analyse_metadata a b)) (map lc (analyse_metadata b a)).
+Proof. exact metadata_mirror. Qed.
+Print Assumptions C14_doc_metadata_mirror.
+
 (* the tags of an operation that both documents have *)
 Theorem C14_doc_tags_mirror : forall (k : str * str) (t1 t2 : list str),
   let ad := diffs_to (Some t1) (Some t2) in let ad' := diffs_to (Some t2) (Some t1) in
